@@ -25,31 +25,6 @@ pub fn gen_spec(rng: &mut Rng, screen: &mut Screen) -> (RunSpec, usize, usize) {
         k.max_files_per_dir = k.max_files_per_dir.max(2);
     }
     gen::gen_tree(rng, screen, &mut world, "/w/c", &k);
-    // rare shapes: a very wide directory (> 256 entries) or a very deep chain
-    match rng.below(150) {
-        0 => {
-            let n = rng.range(257, 300);
-            let texts: Vec<String> = (0..3).map(|_| screen.gen_text(rng)).collect();
-            let dir = if rng.chance(1, 2) { "/w/c" } else { "/w/c/wide" };
-            for i in 0..n {
-                let t = texts[i % texts.len()].clone();
-                world.put_file(&format!("{}/f{:03}.sol", dir, i), t.into_bytes(), crate::world::Fault::None);
-            }
-        }
-        1 => {
-            let mut d = "/w/c".to_string();
-            for i in 0..rng.range(8, 24) {
-                d = format!("{}/n{}", d, i);
-                if rng.chance(1, 3) {
-                    let t = screen.gen_text(rng);
-                    world.put_file(&format!("{}/deep{}.sol", d, i), t.into_bytes(), crate::world::Fault::None);
-                }
-            }
-            let t = screen.gen_text(rng);
-            world.put_file(&format!("{}/bottom.sol", d), t.into_bytes(), crate::world::Fault::None);
-        }
-        _ => {}
-    }
     let place = if rng.chance(1, 2) {
         CwdPlace::Parent
     } else {
